@@ -20,6 +20,8 @@ from pycel.lib.function_helpers import (
 
 _SIZE_MASK = {2: 512, 8: 0x20000000, 16: 0x8000000000}
 _BASE_TO_FUNC = {2: bin, 8: oct, 16: hex}
+_BASE_DIGITS = {2: frozenset('01'), 8: frozenset('01234567'),
+                16: frozenset('0123456789abcdefABCDEF')}
 
 
 def _base2dec(value, base):
@@ -37,7 +39,8 @@ def _base2dec(value, base):
         if int(value) == value:
             value = str(int(value))
 
-    if isinstance(value, str) and len(value) <= 10:
+    # int() also takes python literal syntax: ' 11', '+11', '1_0', '0b1', non-ASCII digits
+    if isinstance(value, str) and len(value) <= 10 and _BASE_DIGITS[base].issuperset(value):
         try:
             value, mask = int(value, base), _SIZE_MASK[base]
             if value >= 0:
